@@ -146,7 +146,7 @@ def c17_crash_cases(cases, repo, max_crashes=6):
     when the process died gets the observation `escaped` (where=process), which ToolsObs judges like any other line, and the run
     goes on behind it.  After max_crashes crashes the remaining cases are dropped (the verdict is a violation or inconclusive anyway)."""
     todo = list(cases)
-    lines, crashes, done = [], 0, []
+    lines, crashes, done, unattributed = [], 0, [], 0
     while todo:
         code, output, wall, ls = replay("C17", todo, repo=repo, env={"VERIF_TOOLS_SERIAL": "1"})
         idx = index_cases(ls)
@@ -156,13 +156,25 @@ def c17_crash_cases(cases, repo, max_crashes=6):
             break
         crashes += 1
         open_ids = [cid for cid, (c, l) in idx.items() if not l[-1].startswith('{"ev":"end"')]
-        if len(open_ids) != 1 or ("panic" not in output and "fatal error" not in output):
-            raise Inconclusive("C17 replay (serial) failed and the open case is not identifiable\n" + output[-3000:])
+        if "panic" not in output and "fatal error" not in output:
+            raise Inconclusive("C17 replay (serial) failed without a crash report\n" + output[-3000:])
+        if len(open_ids) != 1:
+            # the process died between two cases (a goroutine left behind by an earlier case): keep what is complete, go on
+            unattributed += 1
+            if unattributed > 2:
+                raise Inconclusive("C17 replay (serial): the process keeps dying outside any case\n" + output[-3000:])
+            for k, (c, l) in idx.items():
+                if k not in open_ids:
+                    lines += l
+            finished = set(idx.keys()) - set(open_ids)
+            done += [c for c in todo if c["id"] in finished]
+            todo = [c for c in todo if c["id"] not in finished]
+            continue
         cid = open_ids[0]
         for k, (c, l) in idx.items():
             lines += l
             if k == cid:
-                lines += ['{"ev":"escaped","where":"process","value":"the test process died"}', '{"ev":"end","forced":false,"note":"process crash"}']
+                lines += ['{"ev":"died","where":"process"}', '{"ev":"end","forced":false,"note":"process crash"}']
         pos = [i for i, c in enumerate(todo) if c["id"] == cid][0]
         done += todo[:pos + 1]
         todo = todo[pos + 1:]
@@ -248,8 +260,20 @@ def c17(tier, repo=None, only_cases=None):
         exhaustive = False
     for i, c in enumerate(cases):
         c.setdefault("id", "%s-%d" % (c.get("fam", "r"), i))
-        c.setdefault("wrap", rnd.random() < 0.3)     # secondary dimension: tools built with components/tool/utils
+        c.setdefault("wrap", rnd.random() < 0.4)     # secondary dimension: tools built with components/tool/utils
         c.setdefault("optlist", rnd.random() < 0.2)  # secondary dimension: tool list given per call (WithToolList)
+        if "deep" not in c:
+            # panicking tools panic from a deep recursion in a fraction of the cases: the long unwinding widens the window between
+            # the panic and the moment its error is stored (needs the panicking call to finish last: the schedules cover that)
+            c["deep"] = any(t["beh"] == "panic" for t in c["tools"]) and rnd.random() < 0.35
+        if "jsonargs" not in c:
+            # arguments as JSON objects, field "o" omitted in every other call; with wrap the utils tools decode them by default
+            # into a pointer-to-struct / map input (the same tool called 2-3 times in one message runs these decodes concurrently)
+            c["jsonargs"] = rnd.random() < (0.8 if c["wrap"] else 0.15)
+            if c["jsonargs"]:
+                flip = rnd.randrange(2)
+                for i, k in enumerate(c["calls"]):
+                    k["args"] = '{"v":"%s"%s}' % (k["args"], (',"o":"o%d"' % (i + 1)) if (i + flip) % 2 == 0 else "")
 
     # ---- 3. replay on the real ToolsNode
     def run_cases(cs):
